@@ -91,6 +91,7 @@ theorem noopEdge_rel (ok : P.Ok) {s₁ s₂ : St} (h : Sim P X s₁ s₂) {g : N
           rcases hx with hx | hx
           · exact hw.2 x (by simpa [grefs] using hx)
           · rw [hx]; exact (hj src rfl).2.2 hrv)
+        (by intro _ nodes0 t0 e0; cases e0)
       have em : mapGrpAt P g (.noop (parents ++ [(src, e.cond)]) router) =
           .noop (parents.map (fun p => (P.γ p.1, p.2)) ++ [(P.γ src, e.cond)]) (router.map P.ν) := by
         simp [mapGrpAt, mapGrp]
@@ -114,7 +115,8 @@ theorem noopEdge_rel (ok : P.Ok) {s₁ s₂ : St} (h : Sim P X s₁ s₂) {g : N
         subst n'; subst t₁; subst t₂
         rw [rwp_bind]
         refine rwp_of_run (fuelOf_run _) (fuelOf_run _) ?_
-        refine rwp_mono (addExit_srel ok hsim _ _ (hj src rfl).1 (hj src rfl).2.1 (.node n.uid) e.cond) ?_
+        refine rwp_mono (addExit_srel ok hsim _ _ (hj src rfl).1 (hj src rfl).2.1 (.node n.uid) e.cond
+          (fun _ e' => by cases e')) ?_
         intro _ t₁ _ t₂ hp
         refine spost_trans ?_ ?_ hblk hp
         · exact ⟨rfl, rfl, rfl⟩
@@ -200,7 +202,7 @@ theorem gotoEdge_rel (ok : P.Ok) {s₁ s₂ : St} (h : Sim P X s₁ s₂) (ed : 
     refine rwp_mono (getNode_rel h.1 hdi) ?_
     intro n t₁ n' t₂ ⟨hn', hn, e1, e2⟩
     subst n'; subst t₁; subst t₂
-    exact addRowEdge_rel ok h (.node n.uid) ed.1 hF hmr
+    exact addRowEdge_rel ok h (.node n.uid) ed.1 hF hmr (fun _ e' => by cases e')
 
 theorem mem_zip_left {α β : Type} {l : List α} {m : List β} {p : α × β} (h : p ∈ l.zip m) : p.1 ∈ l ∧ p.2 ∈ m :=
   ⟨(List.of_mem_zip h).1, (List.of_mem_zip h).2⟩
@@ -287,6 +289,7 @@ theorem mergeRow_rel (ok : P.Ok) {s₁ s₂ : St} (h : Sim P X s₁ s₂) (r : R
         intro n t₁ n' t₂ ⟨hn', hn, e1, e2⟩
         subst n'; subst t₁; subst t₂
         have a1 := a0.setNode ok hdx hn (n' := { n with actions := n.actions ++ [(au, act)] }) (.inl rfl)
+          (fun _ hl => noLoose_actions _ hl)
         rw [rwp_bind, rwp_iff_wp, wp_setNode]
         rw [wp_setNode]
         have e3 : (rnNode P.ρ { n with actions := n.actions ++ [(au, act)] }) =
@@ -377,7 +380,7 @@ theorem newRow_rel (ok : P.Ok) {s₁ s₂ : St} (h : Sim P X s₁ s₂) (r : Row
   rw [rwp_bind, rwp_iff_wp, wp_addNode]
   rw [wp_addNode]
   rw [rwp_bind]
-  refine rwp_mono (edges_rel ok hs1 (.node n.uid) r.edges hpre.1 (fun he => (hpre.2 he).of_blkEq hb1)) ?_
+  refine rwp_mono (edges_rel ok hs1 (.node n.uid) r.edges hpre.1 (fun he => (hpre.2 he).of_blkEq hb1) (fun _ e' => by cases e')) ?_
   intro _ u₁ _ u₂ ⟨hu, e1, e2, hb⟩
   have hdg := hu.1.gdom u₁.groups.size (Nat.le_refl _)
   have hg0 : P.γ u₁.groups.size = u₂.groups.size := by simpa using hu.1.gsync 0
